@@ -18,6 +18,8 @@ try:
         shutil.copy("/repo/setup.cfg", d)
         r = subprocess.run("cd %s && PYTHONPATH=%s/py34 /venv/bin/python -m pytest -q -p no:cacheprovider -x 2>&1 | tail -2" % (d, d), shell=True, stdout=subprocess.PIPE)
         print("TESTS:", r.stdout.decode().strip().replace("\n", " | "))
+    ev = "/verif/evidence/%s.json" % pid
+    saved = open(ev).read() if os.path.exists(ev) else None
     env = dict(os.environ, BACPYPES_SRC=d + "/py34")
     r = subprocess.run(["/verif/bin/check", pid, "--tier", "quick"], env=env, stdout=subprocess.PIPE, stderr=subprocess.STDOUT, cwd="/verif")
     out = r.stdout.decode()
@@ -27,4 +29,9 @@ try:
     print("monitors:", mons)
 finally:
     shutil.rmtree(d, ignore_errors=True)
+    try:
+        if saved is not None:
+            open(ev, "w").write(saved)      # the evidence of the real tree is not to be overwritten by a mutant's run
+    except NameError:
+        pass
     # restore evidence of the real tree is the caller's job (the run above overwrote evidence/<pid>.json)
